@@ -59,10 +59,27 @@ def detuple(x):
     return x
 
 
+_CURRENT_REPORT = [None]
+
+
+class ItemTimeout(BaseException):
+    """a work item exceeded its wall-clock budget"""
+
+
+def item_timeout(tier):
+    """Per-item wall-clock budget in seconds (a changed optyx can make single items pathologically slow: the check then
+    reports what it found and says that it is incomplete instead of running for hours)."""
+    env = os.environ.get("VERIF_ITEM_TIMEOUT")
+    if env:
+        return int(env)
+    return 1500 if tier == "quick" else 6 * 3600
+
+
 class Report:
     """What one work item explored.  All counters are measured, never constants."""
 
     def __init__(self):
+        _CURRENT_REPORT[0] = self  # the report of the running work item (kept when the item is cut off, see _run_item)
         self.states = 0            # distinct programs / model states / histories visited
         self.transitions = 0       # builder-op applications / operations executed on the real code
         self.evaluations = 0       # individual observations compared with the oracle
@@ -114,6 +131,13 @@ def _init_worker():
     import numpy as np
 
     np.seterr(all="ignore")
+    try:        # diagnostics: `kill -USR1 <worker pid>` prints the worker's Python stack to stderr
+        import faulthandler
+        import signal
+
+        faulthandler.register(signal.SIGUSR1, all_threads=False)
+    except Exception:
+        pass
 
 
 def _run_item(args):
@@ -122,11 +146,41 @@ def _run_item(args):
 
     mod = importlib.import_module(modname)
     t0 = time.time()
+    import signal
+
+    def _cut(signum, frame):
+        raise ItemTimeout()
+
+    limit = item_timeout(tier)
+    left = float(os.environ.get("VERIF_DEADLINE", "inf")) - time.time()
+    if left <= 1:
+        rep = Report()
+        rep.extra["item_timeouts"] = [f"{item!r} not started (the check's total wall-clock budget was used up)"]
+        rep.caps.append({"what": "work item not started: total wall-clock budget of the check used up", "item": repr(item)})
+        return rep
+    limit = int(min(limit, left)) + 1
+    _CURRENT_REPORT[0] = None
+    try:
+        old_handler = signal.signal(signal.SIGALRM, _cut)
+        signal.alarm(limit)
+    except Exception:
+        old_handler = None
     try:
         rep = mod.explore(item, tier, seed)
+    except ItemTimeout:
+        rep = _CURRENT_REPORT[0] or Report()        # what the item had covered (and found) when it was cut off
+        rep.extra.setdefault("item_timeouts", []).append(f"{item!r} after {limit}s")
+        rep.caps.append({"what": "work item cut off by its wall-clock budget", "item": repr(item), "seconds": limit})
     except BaseException:
         rep = Report()
         rep.extra["harness_error"] = traceback.format_exc()
+    finally:
+        try:
+            signal.alarm(0)
+            if old_handler is not None:
+                signal.signal(signal.SIGALRM, old_handler)
+        except Exception:
+            pass
     rep.extra.setdefault("wall_items", 0)
     rep.extra["wall_items"] += time.time() - t0
     return rep
@@ -157,6 +211,9 @@ def run_check(mod, tier, seed, jobs=None):
     assert_source()
     items = mod.shards(tier, seed)
     jobs = jobs or NPROC
+    # total wall-clock budget of one check (inherited by the forked workers)
+    budget_s = int(os.environ.get("VERIF_CHECK_BUDGET", "2700" if tier == "quick" else str(12 * 3600)))
+    os.environ["VERIF_DEADLINE"] = str(t0 + budget_s)
     total = Report()
     harness_errors = []
     if jobs <= 1 or len(items) <= 1 or getattr(mod, "SERIAL", False):
@@ -166,9 +223,11 @@ def run_check(mod, tier, seed, jobs=None):
         ctx = mp.get_context("fork")
         with ctx.Pool(min(jobs, len(items)), initializer=_init_worker) as pool:
             reps = pool.map(_run_item, [(mod.__name__, it, tier, seed) for it in items], chunksize=1)
+    timeouts = []
     for r in reps:
         if "harness_error" in r.extra:
             harness_errors.append(r.extra.pop("harness_error"))
+        timeouts += r.extra.pop("item_timeouts", [])
         total.merge(r)
     if harness_errors:
         print("HARNESS-ERROR in", pid)
@@ -269,6 +328,10 @@ def run_check(mod, tier, seed, jobs=None):
         f"outcome_classes={len(total.outcomes)} raw_violations={len(total.violations)} "
         f"culprits={len(groups)} known={len(matched)} new={len(unknown)} wall={wall:.1f}s"
     )
+    if timeouts:
+        # violations found before the cut-off are reported above (exit 1); without any the run proves nothing
+        print(f"INCOMPLETE property={pid}: {len(timeouts)} work item(s) cut off by the wall-clock budget: " + "; ".join(timeouts[:4]))
+        return 1 if unknown else 2
     return 1 if unknown else 0
 
 
